@@ -20,7 +20,8 @@ func init() {
 			"R4 metavariable spelling does not matter — compileMeta compares a declared name with no constant other than \"_\" and enters every other name that is not a duplicate (exactness), and no other function of the engine compares a metavariable name with a constant; " +
 			"R5 elision pairing depends on positions only through their order — in connectDots line and column numbers are used exclusively as operands of order/equality comparisons with other line/column numbers (never in arithmetic, never against constants), so inserting comment or blank lines or re-wrapping both sides identically cannot change the association. " +
 			"R6 the name of a change does not steer positions — the token.File that receives a section's line table is the object created for that section (FileSet.AddFile result / FileSet.File at a position of that side's parse result), never looked up by a name two changes may share. " +
-			"NOT decided (runtime relation over positions): consistent renaming beyond R4, declaration regrouping, re-wrapping / re-spacing of the Go code, blank lines inside patterns, context line versus '-'/'+' pair.",
+			"NOT decided (runtime relation over positions): consistent renaming beyond R4, declaration regrouping, re-wrapping / re-spacing of the Go code, blank lines inside patterns, context line versus '-'/'+' pair." +
+			" R9 each change is parsed and compiled on its own (no parse cache, no parser state, fresh compilers, no x.f = x.f[:0]).",
 		Trusted:     commonTrusted,
 		Assumptions: commonAssumptions,
 	})
